@@ -35,6 +35,7 @@ import (
 var (
 	repo = flag.String("repo", "/repo", "repository root")
 	out  = flag.String("out", "", "output directory for overlay files and overlay.json")
+	mlDir = flag.String("memberlist", "", "private writable copy of github.com/hashicorp/memberlist to rewrite in place (mutexes only)")
 )
 
 var pkgs = []string{"serf", "client", "cmd/serf/command/agent"}
@@ -82,6 +83,45 @@ func main() {
 				fatal("%v", err)
 			}
 			overlay[src] = dst
+		}
+	}
+	// memberlist: only its sync mutexes become cooperative, so that a goroutine
+	// parked at a yield inside a serf delegate callback (memberlist calls them
+	// with its own locks held) never makes another goroutine wait in a real
+	// mutex, which synctest does not treat as durably blocked.
+	if *mlDir != "" {
+		ents, err := os.ReadDir(*mlDir)
+		if err != nil {
+			fatal("%v", err)
+		}
+		n := 0
+		for _, e := range ents {
+			name := e.Name()
+			if e.IsDir() || !strings.HasSuffix(name, ".go") || strings.HasSuffix(name, "_test.go") {
+				continue
+			}
+			src := filepath.Join(*mlDir, name)
+			b, err := os.ReadFile(src)
+			if err != nil {
+				fatal("%v", err)
+			}
+			res, changed, err := rewriteMutexOnly(src, b)
+			if err != nil {
+				fatal("%s: %v", src, err)
+			}
+			if !changed {
+				continue
+			}
+			// rewritten in place: -memberlist points at a private copy of the module
+			// (files beneath GOMODCACHE cannot be overlaid), used through a
+			// replace directive in go.inst.mod
+			if err := os.WriteFile(src, res, 0o644); err != nil {
+				fatal("%v", err)
+			}
+			n++
+		}
+		if n == 0 {
+			fatal("memberlist: no sync mutex found to replace in %s", *mlDir)
 		}
 	}
 	// files that MUST have been rewritten
@@ -164,6 +204,35 @@ func rewrite(path, pkg, name string, src []byte) ([]byte, bool, error) {
 		return nil, false, err
 	}
 	hdr := fmt.Sprintf("// Code generated by verif tools/instrument from %s. DO NOT EDIT.\n\n", r.rel)
+	return append([]byte(hdr), buf.Bytes()...), true, nil
+}
+
+// rewriteMutexOnly replaces sync.Mutex / sync.RWMutex types and nothing else.
+func rewriteMutexOnly(path string, src []byte) ([]byte, bool, error) {
+	fset := token.NewFileSet()
+	f, err := parser.ParseFile(fset, path, src, parser.ParseComments)
+	if err != nil {
+		return nil, false, err
+	}
+	r := &rw{fset: fset, file: f, rel: filepath.Base(path)}
+	var keep []*ast.CommentGroup
+	for _, cg := range f.Comments {
+		if cg.End() < f.Package {
+			keep = append(keep, cg)
+		}
+	}
+	f.Comments = keep
+	r.replaceMutexTypes()
+	if !r.changed {
+		return nil, false, nil
+	}
+	addImport(f, "verifsim/vsched")
+	pruneImports(f)
+	var buf bytes.Buffer
+	if err := format.Node(&buf, fset, f); err != nil {
+		return nil, false, err
+	}
+	hdr := fmt.Sprintf("// Code generated by verif tools/instrument from %s (mutexes only). DO NOT EDIT.\n\n", r.rel)
 	return append([]byte(hdr), buf.Bytes()...), true, nil
 }
 
